@@ -26,7 +26,7 @@ Definition SemInv (v0 : Z) (w : world) : Prop :=
 
 Lemma SemInv_step v0 w mv : I1 w -> SemInv v0 w -> SemInv v0 (step w mv).
 Proof.
-  intros H1 (HJ & Hp0 & Hok). unfold SemInv. destruct mv as [t|t|t|n|c]; cbn [step].
+  intros H1 (HJ & Hp0 & Hok). unfold SemInv. destruct mv as [t|t|t|t|n|c]; cbn [step].
   - rewrite trace_clear_mark, ps_clear_mark.
     destruct (step_run_case w t) as [|Hr Hpc Hs|op rest Hr Hpc Hs|p' Hr Hpc Hp|p' r Hr Hpc Hp].
     + tauto.
@@ -35,7 +35,7 @@ Proof.
         cbn [sem_ok sem_waits sem_signals is_sem_wait_call andb]; rewrite ?Hok; consts; try tauto; repeat split; lia.
     + wsimpl. apply prim_step_progress in Hp as (c' & m & dl & Hc & Hst & [[_ ->]|(_ & _ & ->)]); wsimpl; tauto.
     + rewrite ps_after_return. wsimpl.
-      destruct (pc (tc w t)) eqn:Hpc'; try congruence; use_I1 H1 t Hpc'; prim_inv Hp; subst;
+      destruct (pc (tc w t)) eqn:Hpc'; try congruence; use_I1 H1 t Hpc'; prim_inv Hp; subst; unfold release_all in *;
         cbn [after_return]; wsimpl; consts; dif; wsimpl; try destruct dl; cbn [pc_ok] in *; ex_cur;
         cbn [sem_ok sem_waits sem_signals is_sem_wait_call is_sig_wait andb b2z]; rewrite ?Hok; unfold XS in *; upd_simpl;
         rewrite ?sem_release;
@@ -53,6 +53,7 @@ Proof.
       use_I1 H1 t Hpc'; cbn [after_return]; wsimpl; consts; wsimpl; ex_cur;
         cbn [sem_ok sem_waits sem_signals is_sem_wait_call andb]; rewrite ?Hok; consts; try tauto; repeat split; lia.
     + wsimpl. unfold prim_timeout. rewrite Hst. destruct dl as [d|]; [|tauto]. destruct (dl_expired d _); wsimpl; tauto.
+  - wsimpl. destruct (steal_shape (ps w) t) as [->|(m & rc & d & _ & _ & ->)]; wsimpl; tauto.
   - wsimpl. tauto.
   - wsimpl. unfold prim_rotate. destruct (cnd (ps w) c); wsimpl; tauto.
 Qed.
@@ -70,7 +71,7 @@ Lemma MonInv_step w mv : I1 w -> MonInv w -> MonInv (step w mv).
 Proof.
   intros H1 (HJ & Hok). unfold MonInv.
   assert (Hb : 0 <= b2z (monf w) <= 1) by (destruct (monf w); cbn; lia).
-  destruct mv as [t|t|t|n|c]; cbn [step].
+  destruct mv as [t|t|t|t|n|c]; cbn [step].
   - rewrite trace_clear_mark, monf_clear_mark.
     destruct (step_run_case w t) as [|Hr Hpc Hs|op rest Hr Hpc Hs|p' Hr Hpc Hp|p' r Hr Hpc Hp].
     + tauto.
@@ -85,6 +86,7 @@ Proof.
   - destruct (st (ps w) t) eqn:Hst; try tauto.
     destruct (pc (tc w t)) eqn:Hpc'; try tauto. destruct (_ && _); [|tauto].
     use_I1 H1 t Hpc'; cbn [after_return]; wsimpl; consts; wsimpl; ex_cur; mon_fin Hok.
+  - wsimpl. tauto.
   - wsimpl. tauto.
   - wsimpl. tauto.
 Qed.
@@ -106,7 +108,7 @@ Ltac join_fin Hok := cbn [join_ok exited]; rewrite ?Hok; consts; try tauto.
 Lemma JoinInv_step w mv : I1 w -> I2 w -> JoinInv w -> JoinInv (step w mv).
 Proof.
   intros H1 H2 (HJ & Hok). unfold JoinInv.
-  destruct mv as [t|t|t|n|c]; cbn [step].
+  destruct mv as [t|t|t|t|n|c]; cbn [step].
   - rewrite trace_clear_mark, ps_clear_mark.
     destruct (step_run_case w t) as [|Hr Hpc Hs|op rest Hr Hpc Hs|p' Hr Hpc Hp|p' r Hr Hpc Hp].
     + tauto.
@@ -136,6 +138,9 @@ Proof.
     + wsimpl. split; auto. intros u. unfold prim_timeout. rewrite Hst. destruct dl as [d|]; [|apply HJ]. destruct (dl_expired d _); [|apply HJ].
       wsimpl. pose proof (HJ u) as Hu. pose proof (HJ t) as Ht.
       rewrite Hst in Ht. destruct (Nat.eq_dec u t) as [->|]; upd_simpl; auto.
+  - wsimpl. split; auto. intros u. destruct (steal_shape (ps w) t) as [->|(m & rc & d & Hst & _ & ->)]; [apply HJ|].
+    wsimpl. pose proof (HJ u) as Hu. pose proof (HJ t) as Ht.
+    rewrite Hst in Ht. destruct (Nat.eq_dec u t) as [->|]; upd_simpl; auto.
   - wsimpl. tauto.
   - wsimpl. split; auto. intros u. unfold prim_rotate. destruct (cnd (ps w) c); apply HJ.
 Qed.
@@ -154,10 +159,10 @@ Proof. intros H. induction l; cbn; auto. rewrite H, IHl; auto. Qed.
 
 Ltac mtx_fin Hok := cbn [mtx_ok held acquires ev_tid]; rewrite ?Hok; consts; try tauto.
 
-Lemma MtxInv_step w mv : I1 w -> I2 w -> MtxInv w -> MtxInv (step w mv).
+Lemma MtxInv_step w mv : I1 w -> I2 w -> m_rec (mtx (ps w) XM) = true -> MtxInv w -> MtxInv (step w mv).
 Proof.
-  intros H1 H2 (HJ & Hok). unfold MtxInv.
-  destruct mv as [t|t|t|n|c]; cbn [step].
+  intros H1 H2 Hrec (HJ & Hok). unfold MtxInv.
+  destruct mv as [t|t|t|t|n|c]; cbn [step].
   - rewrite trace_clear_mark, ps_clear_mark.
     destruct (step_run_case w t) as [|Hr Hpc Hs|op rest Hr Hpc Hs|p' Hr Hpc Hp|p' r Hr Hpc Hp].
     + tauto.
@@ -190,6 +195,7 @@ Proof.
       * split; auto. intros u. rewrite HJ. unfold owned_by in H. unfold held_spec.
         destruct (m_owner (mtx (ps w) 2)) as [o|] eqn:Ho; [|destruct (t =? u)%nat; auto].
         destruct (Nat.eqb_spec t u) as [<-|]; auto. rewrite H. reflexivity.
+      * congruence.
   - destruct (st (ps w) t) eqn:Hst; try tauto.
     + destruct (is_sem_wait (pc (tc w t))) eqn:Hsw; [|tauto]. rewrite ps_after_return.
       destruct (pc (tc w t)) eqn:Hpc'; try discriminate; use_I1 H1 t Hpc'; cbn [after_return]; wsimpl; consts; ex_cur; mtx_fin Hok.
@@ -198,6 +204,7 @@ Proof.
     + destruct (pc (tc w t)) eqn:Hpc'; try tauto. destruct (_ && _); [|tauto]. rewrite ps_after_return.
       use_I1 H1 t Hpc'; cbn [after_return]; wsimpl; consts; wsimpl; ex_cur; mtx_fin Hok.
     + wsimpl. unfold prim_timeout. rewrite Hst. destruct dl as [d|]; [|tauto]. destruct (dl_expired d _); wsimpl; tauto.
+  - wsimpl. destruct (steal_shape (ps w) t) as [->|(m & rc & d & _ & _ & ->)]; wsimpl; tauto.
   - wsimpl. tauto.
   - wsimpl. unfold prim_rotate. destruct (cnd (ps w) c); wsimpl; tauto.
 Qed.
